@@ -74,6 +74,41 @@ def _mentions(t, v):
     return False
 
 
+def _reindex_selection(sd, e):
+    from . import sv as _sv
+    lo, hi = e.arg(0), e.arg(1)
+    args = [e.arg(i) for i in range(2, e.num_args())]
+    x = z3.Int(f"reidx!{e.get_id()}")
+    b = sd.body_at(x, args)
+    # applications sel(x) in the body
+    found = {}
+    seen = set()
+    stack = [b]
+    while stack:
+        t = stack.pop()
+        if t.get_id() in seen:
+            continue
+        seen.add(t.get_id())
+        if z3.is_app(t) and t.decl().kind() == z3.Z3_OP_UNINTERPRETED and t.decl().name() in sigma.SELECTIONS \
+                and t.num_args() == 1 and t.arg(0).eq(x):
+            found[t.decl().name()] = t
+            continue
+        stack.extend(t.children())
+    if len(found) != 1:
+        return None
+    name, app = next(iter(found.items()))
+    f, n, mask, cnt = sigma.SELECTIONS[name]
+    if not (z3.is_int_value(lo) and lo.as_long() == 0 and z3.simplify(hi - _sv.znum(cnt)).eq(z3.IntVal(0))):
+        return None
+    j = z3.Int(f"reidxj!{e.get_id()}")
+    b2 = z3.substitute(b, (app, j))
+    if _mentions(b2, x):
+        return None
+    zero = 0 if z3.is_int(e) else _sv.to_frac(0.0)
+    total = sigma.Sum(0, n, lambda t: _sv.ite(mask(t), _sv.wrap(z3.substitute(b2, (j, _sv.znum(t)))), zero))
+    return e == _sv.znum(total) if z3.is_int(e) == z3.is_int(_sv.znum(total)) else e == z3.ToReal(_sv.znum(total))
+
+
 def _key(e):
     return e.get_id()
 
@@ -194,6 +229,13 @@ def instances(formulas, opts=None):
         if opts.get("unfold_first", False):
             first = sd.fn(z3.simplify(lo + 1), hi, *args)
             out.append(z3.Implies(hi > lo, e == sd.body_at(lo, args) + first))
+    # re-indexing along the enumeration of a boolean-mask selection (assumed bijection sel: [0,count) -> {j<n: mask_j}):
+    #   sum_{p=0}^{count-1} g(sel(p)) = sum_{j=0}^{n-1} [mask_j] g(j)      (g must not depend on p otherwise)
+    if sigma.SELECTIONS:
+        for sd, e in sig_apps:
+            inst = _reindex_selection(sd, e)
+            if inst is not None:
+                out.append(inst)
     if opts.get("ext", True) and len(sig_apps) <= 40:
         for (sd1, e1), (sd2, e2) in itertools.combinations(sig_apps, 2):
             mixed = e1.sort() != e2.sort()
